@@ -137,15 +137,15 @@ Lemma enter_not_printable : is_printable keyEnter = false.
 Proof. reflexivity. Qed.
 
 Lemma run_general ks : forall t lip,
-  clean (paste t) ks = true -> fits t lip ks = true ->
+  clean (paste t) ks = true ->
   submitted (fst (run t lip ks)) ++ pending (line (fst (snd (run t lip ks)))) =
     pending (line t ++ flat (paste t) ks) /\
   complete (line (fst (snd (run t lip ks)))) = complete (line t ++ flat (paste t) ks) /\
   all_lines (fst (run t lip ks)) = true.
 Proof.
-  induction ks as [|k r IH]; intros [ln p] lip Hc Hf.
+  induction ks as [|k r IH]; intros [ln p] lip Hc.
   - cbn [run flat fst snd line]. rewrite app_nil_r. repeat split; reflexivity.
-  - cbn [clean paste] in Hc. cbn [fits paste line] in Hf. apply andb_true_iff in Hf as [Hd Hf].
+  - cbn [clean paste] in Hc.
     cbn [run flat paste line].
     (* Enter, in either mode *)
     assert (HEnter : k = keyEnter ->
@@ -160,13 +160,13 @@ Proof.
     + (* paste active *)
       destruct (k =? keyPasteEnd) eqn:Epe.
       * apply N.eqb_eq in Epe. subst k.
-        unfold process_key in *. cbn [paste line negb] in *. cbn in Hf |- *.
-        specialize (IH (mkTerm ln false) lip Hc Hf). cbn [paste line] in IH. exact IH.
+        unfold process_key in *. cbn [paste line negb] in *. cbn.
+        specialize (IH (mkTerm ln false) lip Hc). cbn [paste line] in IH. exact IH.
       * destruct (k =? keyEnter) eqn:Een.
         -- apply N.eqb_eq in Een. rewrite (HEnter Een (or_intror I)) in *.
            destruct (complete ln) eqn:Ecl.
            ++ cbn [paste]. destruct (run (mkTerm [] true) true r) as [os tf] eqn:Er. cbn [fst snd].
-              specialize (IH (mkTerm [] true) true Hc Hf). rewrite Er in IH. cbn [fst snd paste line app] in IH.
+              specialize (IH (mkTerm [] true) true Hc). rewrite Er in IH. cbn [fst snd paste line app] in IH.
               destruct IH as (A & B & C).
               destruct (split_after_complete ln (32 :: flat true r) Ecl) as [L1 L2].
               destruct (pending_space (flat true r)) as [S1 S2].
@@ -174,11 +174,11 @@ Proof.
               ** unfold submitted in *. cbn [map concat stmts_of]. rewrite <- app_assoc, A, L1, S1. reflexivity.
               ** rewrite B, L2, S2. reflexivity.
               ** unfold all_lines in *. cbn [existsb is_stop orb]. exact C.
-           ++ specialize (IH (mkTerm (ln ++ [32]) true) lip Hc Hf). cbn [paste line] in IH.
+           ++ specialize (IH (mkTerm (ln ++ [32]) true) lip Hc). cbn [paste line] in IH.
               rewrite <- app_assoc in IH. exact IH.
         -- assert (Hp : forall lip0, process_key (mkTerm ln true) lip0 k = PCont (mkTerm (ln ++ [k]) true) lip0).
            { intros lip0. unfold process_key, handle_key, add_key. cbn [paste line negb]. rewrite Epe, Een. reflexivity. }
-           rewrite Hp in *. specialize (IH (mkTerm (ln ++ [k]) true) lip Hc Hf). cbn [paste line] in IH.
+           rewrite Hp in *. specialize (IH (mkTerm (ln ++ [k]) true) lip Hc). cbn [paste line] in IH.
            rewrite <- app_assoc in IH. exact IH.
     + (* typed *)
       destruct (k =? keyPasteStart) eqn:Eps.
@@ -186,7 +186,7 @@ Proof.
         assert (Hp : process_key (mkTerm ln false) lip keyPasteStart =
                      PCont (mkTerm ln true) (match ln with [] => true | _ => lip end)).
         { unfold process_key. cbn [paste line negb]. destruct ln; reflexivity. }
-        rewrite Hp in *. specialize (IH (mkTerm ln true) _ Hc Hf). cbn [paste line] in IH. exact IH.
+        rewrite Hp in *. specialize (IH (mkTerm ln true) (match ln with [] => true | _ => lip end) Hc). cbn [paste line] in IH. exact IH.
       * apply andb_true_iff in Hc as [Hc Hcl]. apply andb_true_iff in Hc as [Hc Hed].
         apply andb_true_iff in Hc as [Hcc Hcd].
         apply negb_true_iff in Hcc, Hcd, Hed.
@@ -194,7 +194,7 @@ Proof.
         -- apply N.eqb_eq in Een. rewrite (HEnter Een (or_intror I)) in *.
            destruct (complete ln) eqn:Ecl.
            ++ cbn [paste]. destruct (run (mkTerm [] false) false r) as [os tf] eqn:Er. cbn [fst snd].
-              specialize (IH (mkTerm [] false) false Hcl Hf). rewrite Er in IH. cbn [fst snd paste line app] in IH.
+              specialize (IH (mkTerm [] false) false Hcl). rewrite Er in IH. cbn [fst snd paste line app] in IH.
               destruct IH as (A & B & C).
               destruct (split_after_complete ln (32 :: flat false r) Ecl) as [L1 L2].
               destruct (pending_space (flat false r)) as [S1 S2].
@@ -202,20 +202,19 @@ Proof.
               ** unfold submitted in *. cbn [map concat stmts_of]. rewrite <- app_assoc, A, L1, S1. reflexivity.
               ** rewrite B, L2, S2. reflexivity.
               ** unfold all_lines in *. cbn [existsb is_stop orb]. exact C.
-           ++ specialize (IH (mkTerm (ln ++ [32]) false) false Hcl Hf). cbn [paste line] in IH.
+           ++ specialize (IH (mkTerm (ln ++ [32]) false) false Hcl). cbn [paste line] in IH.
               rewrite <- app_assoc in IH. exact IH.
-        -- cbn [orb] in Hd.
-           assert (Hp : process_key (mkTerm ln false) lip k =
+        -- assert (Hp : process_key (mkTerm ln false) lip k =
                         PCont (if is_printable k then mkTerm (ln ++ [k]) false else mkTerm ln false) false).
            { unfold process_key, handle_key, add_key. cbn [paste line negb andb].
              rewrite Hcd, Hcc, Eps, Een, Hed. cbn [andb].
              destruct (is_printable k) eqn:Epr; cbn [negb].
-             - cbn [negb orb] in Hd. apply negb_true_iff in Hd. rewrite Hd. reflexivity.
+             - reflexivity.
              - destruct (k =? keyCtrlD); reflexivity. }
            rewrite Hp in *. destruct (is_printable k).
-           ++ specialize (IH (mkTerm (ln ++ [k]) false) false Hcl Hf). cbn [paste line] in IH.
+           ++ specialize (IH (mkTerm (ln ++ [k]) false) false Hcl). cbn [paste line] in IH.
               rewrite <- app_assoc in IH. exact IH.
-           ++ specialize (IH (mkTerm ln false) false Hcl Hf). cbn [paste line] in IH. exact IH.
+           ++ specialize (IH (mkTerm ln false) false Hcl). cbn [paste line] in IH. exact IH.
 Qed.
 
 (* ------------------------------------------------------------------------------------ *)
@@ -503,17 +502,16 @@ Qed.
 Lemma console_script us pcs :
   forallb wf_unit us = true ->
   concat (map snd pcs) = script_keys us ->
-  fits init_term false (deliver pcs ++ [keyEnter]) = true ->
   submitted (fst (run init_term false (deliver pcs ++ [keyEnter]))) = map (fun u => normalise (fst u)) us /\
   all_lines (fst (run init_term false (deliver pcs ++ [keyEnter]))) = true /\
   line (fst (snd (run init_term false (deliver pcs ++ [keyEnter])))) = [].
 Proof.
-  intros Hwf Hcat Hfit.
+  intros Hwf Hcat.
   assert (Hit : forallb (fun pc : bool * list N => forallb item_ok (snd pc)) pcs = true).
   { apply forallb_concat_parts. rewrite Hcat. apply script_items, Hwf. }
   destruct (flat_deliver pcs [keyEnter] Hit) as [Hflat Hclean].
   specialize (Hclean eq_refl).
-  destruct (run_general (deliver pcs ++ [keyEnter]) init_term false Hclean Hfit) as (A & B & C).
+  destruct (run_general (deliver pcs ++ [keyEnter]) init_term false Hclean) as (A & B & C).
   cbn [init_term line paste app] in A, B. rewrite Hflat, Hcat, text_of_script in A, B.
   change (flat false [keyEnter]) with [32] in A, B.
   pose proof (split_concat us Hwf) as Hs.
